@@ -231,8 +231,9 @@ static void case_to_znx64_sweep(int variant, int e, int dexp, unsigned rep) {
 static void case_to_znx64(uint64_t m, int variant, int wide, int dexp, unsigned rep) { case_to_znx64_b(m, variant, wide ? 63 : 50, dexp, rep); }
 
 // ---------------------------------------------------------------- reim_to_tnx (double -> torus double)
+extern void reim_to_tnx_basic_ref(const REIM_TO_TNX_PRECOMP* tables, double* r, const double* x);  // exported, in no header
 static void case_to_tnx(uint64_t m, int variant /*0 native,1 generic,2 ref,3 avx*/, unsigned ovh, int dexp, unsigned rep) {
-  static const char* vn[] = {"dispatch-native", "dispatch-generic", "ref", "avx"};
+  static const char* vn[] = {"dispatch-native", "dispatch-generic", "ref", "avx", "basic-ref"};
   char key[96];
   snprintf(key, sizeof key, "reim_to_tnx|%s,%s,%s", vn[variant], ovh >= 29 ? "log2overhead>=29" : "log2overhead<29", m >= 8 ? "m>=8" : "m<8");
   if (!case_begin(key, "m=%" PRIu64 " log2overhead=%u divisor=2^%d rep=%u", m, ovh, dexp, rep)) return;
@@ -256,6 +257,7 @@ static void case_to_tnx(uint64_t m, int variant /*0 native,1 generic,2 ref,3 avx
   set_dispatch(1);
   if (variant <= 1) reim_to_tnx(p, out, x);
   else if (variant == 2) reim_to_tnx_ref(p, out, x);
+  else if (variant == 4) reim_to_tnx_basic_ref(p, out, x);  // exported second portable implementation (x/d - rint(x/d))
   else reim_to_tnx_avx(p, out, x);
   const q_t tol = ldexpq(1, (int)ovh - 50);
   uint64_t nbad = 0;
@@ -455,7 +457,7 @@ void run_C14(void) {
       for (unsigned ovh = 0; ovh <= 48; ovh++) {
         ctr++;
         if (!th && m > 16 && (ovh % 4) != (ctr % 4)) continue;
-        for (int v = 0; v < 4; v++) {
+        for (int v = 0; v < 5; v++) {
           if (v == 3 && m < 4) continue;  // AVX kernel processes 8 doubles per step (n = 2m >= 8)
           case_to_tnx(m, v, ovh, DIV_EXP[(ctr + ovh) % ARRAY_LEN(DIV_EXP)], rep);
         }
